@@ -571,6 +571,10 @@ func (s *SortField) MarshalJSON() ([]byte, error) {
 
 func (s *SortField) Copy() SearchSort {
 	rv := *s
+	// the copy gets scratch buffers of its own, the copies of one
+	// request are used concurrently (one per index of an alias)
+	rv.values = nil
+	rv.tmp = nil
 	return &rv
 }
 
@@ -811,6 +815,8 @@ func (s *SortGeoDistance) MarshalJSON() ([]byte, error) {
 
 func (s *SortGeoDistance) Copy() SearchSort {
 	rv := *s
+	// see SortField.Copy
+	rv.values = nil
 	return &rv
 }
 
